@@ -265,6 +265,10 @@ def gen_ni_history(seed):
     for _ in range(nm):
         s, ev, mode, ver = rng.choice(NI_MODELS)
         models.append({"settings": s, "ev": ev, "mode": mode, "version": ver, "seed": rng.below(10**6), "plan_type": rng.choice(["gaussian", "spline"]), "interp": rng.choice(["onsite_direct", "onsite_spline"]), "xmix": rng.choice([1.0, 0.5, 0.25]), "zero_d": bool(rng.chance(0.3)), "alpha_max": rng.choice([300.0, 1000.0, 3000.0, 3000.0]), "lmax": rng.choice([None, None, None, 6, 8]), "rhocut": rng.choice([None, None, None, 1e-6, 1e-4, 1e-3])})
+        if rng.chance(0.4):
+            # the second calculator of this model (two KS objects in one script, on the same
+            # grids) is configured with other optional settings than the first
+            models[-1]["calc1"] = {"lmax": rng.choice([None, 6, 8]), "alpha_max": rng.choice([300.0, 1000.0, 3000.0])}
     nmol = rng.randint(1, 3)
     mols = []
     for _ in range(nmol):
@@ -303,6 +307,28 @@ def gen_ni_history(seed):
             ops.append(dict(tmpl, mol=it % 2, dms=[rng.below(2)]))
             ops.append({"op": "drop_all"})
         return {"kind": "ni", "models": models, "mols": mols, "grids": grids[:1], "ops": ops, "perturb": rng.choice(PERTURBS)}
+    if not big and rng.chance(0.1):
+        # block sweep: one request under every memory budget (each budget cuts the grid into
+        # other blocks), with a density threshold high enough for whole blocks to fall below it
+        models = [dict(models[0], rhocut=rng.choice([1e-6, 1e-4, 1e-3, 1e-3]))]
+        uks_ = bool(rng.chance(0.6))
+        j_ = rng.below(3)
+        mems = sorted(set(MAXMEMS), reverse=True)
+        rng.shuffle(mems)
+        for mm in mems:
+            ops.append({"op": "call", "model": 0, "mol": 0, "grid": 0, "uks": uks_, "dms": [j_], "max_memory": mm, "calc": 0, "container": "single", "alias": None})
+        return {"kind": "ni", "models": models, "mols": mols[:1], "grids": grids[:1], "ops": ops, "perturb": rng.choice(PERTURBS)}
+    if not big and rng.chance(0.1):
+        # two calculators for one model on one grids object, configured with different optional
+        # settings (angular cut-off, top exponent), used alternately
+        nld = [m_ for m_ in NI_MODELS if m_[0].startswith("nldf")]
+        s_, ev_, mode_, ver_ = rng.choice(nld)
+        lm = rng.choice([(6, None), (None, 6), (8, None), (6, 8), (8, 6), (None, 8)])
+        models = [dict(models[0], settings=s_, ev=ev_, mode=mode_, version=ver_, lmax=lm[0], calc1={"lmax": lm[1], "alpha_max": rng.choice([300.0, 3000.0])})]
+        tmpl = {"op": "call", "model": 0, "mol": 0, "grid": 0, "uks": bool(rng.chance(0.4)), "dms": [0], "max_memory": 2000, "calc": 0, "container": "single", "alias": None}
+        for it in range(rng.randint(3, 5)):
+            ops.append(dict(tmpl, calc=it % 2, dms=[rng.below(2)], uks=bool(rng.chance(0.4))))
+        return {"kind": "ni", "models": models, "mols": mols[:1], "grids": grids[:1], "ops": ops, "perturb": rng.choice(PERTURBS)}
     for _ in range(rng.randint(3, 8)):
         c = rng.weighted([("call", 16), ("reset", 2), ("build", 2), ("regrid", 2), ("regrid_inplace", 4 if nmol > 1 else 0), ("drop_all", 1)])
         if c == "drop_all":
@@ -322,7 +348,7 @@ def gen_ni_history(seed):
                     "dms": [rng.below(3) for _ in range(nset)],
                     "max_memory": rng.choice([2000, 2000, 4000, 100, 4, 1.0]) if big else rng.choice(MAXMEMS),
                     # a second long-lived calculator for the same model (two KS objects in one script)
-                    "calc": int(rng.chance(0.15)),
+                    "calc": int(rng.chance(0.15)),  # (raised below when the two calculators are configured differently)
                     # a Python list of matrices is rejected by the CIDER integrators (AttributeError on .ndim):
                     # a rejection, not a result, so only stacked arrays are generated
                     # (a batch of one - shape (1, nao, nao) / (2, 1, nao, nao) - is a batch too)
@@ -332,6 +358,8 @@ def gen_ni_history(seed):
                     "alias": rng.choice([None, None, None, "readonly", "fortran", "sameab", "rdm2d"]),
                 }
             )
+            if models[ops[-1]["model"]].get("calc1") and rng.chance(0.3):
+                ops[-1]["calc"] = 1
             if rng.chance(0.1):
                 # a density far outside the range the settings were built for (poor initial guess):
                 # fresh objects reject it with the documented error, and so must long-lived ones;
@@ -399,14 +427,19 @@ def exec_ni_history(hist, rp):
     refs = _SHARED_REFS.setdefault(json.dumps([hist["models"], hist["mols"], hist["grids"]], sort_keys=True), {}) if hist.get("share_refs") else {}
     judge_from = int(hist.get("judge_from", 0))
 
-    def reference(mi, k, gi, uks, j, scale=1.0, rdm2d=False):
+    def mdesc_of(mi, ci=0):
+        md = hist["models"][mi]
+        return dict(md, **md["calc1"]) if (ci and md.get("calc1")) else md
+
+    def reference(mi, k, gi, uks, j, scale=1.0, rdm2d=False, ci=0):
         """fresh objects, nset = 1, default max_memory, one call, other allocator pattern"""
-        key = (mi, json.dumps(hist["mols"][k], sort_keys=True), json.dumps(hist["grids"][gi], sort_keys=True), uks, j, scale, rdm2d)
+        ci = ci if hist["models"][mi].get("calc1") else 0
+        key = (mi, json.dumps(hist["mols"][k], sort_keys=True), json.dumps(hist["grids"][gi], sort_keys=True), uks, j, scale, rdm2d, ci)
         if key not in refs:
             set_perturb(hist["perturb"] ^ 0x5A)
             model = U.fresh_model(mi)
             mol = U.mol(k, fresh=True)
-            ks = make_ks(model, mol, uks, hist["grids"][gi], hist["models"][mi])
+            ks = make_ks(model, mol, uks, hist["grids"][gi], mdesc_of(mi, ci))
             ks.build()
             g = build_grids(ks, mol)
             dm = np.array(U.dm(k, 2 if uks else 1, j), copy=True) * scale
@@ -492,9 +525,10 @@ def exec_ni_history(hist, rp):
         if g_size_probe(hist, gi):
             stats["calls_on_grid_above_block_cap"] += 1
         if ck not in calcs:
-            ks = make_ks(model, mol, False, hist["grids"][gi], hist["models"][mi])
+            ks = make_ks(model, mol, False, hist["grids"][gi], mdesc_of(mi, op.get("calc", 0)))
             ks.build()
             calcs[ck] = ks
+            stats["second_calculator_with_other_options"] += int(bool(op.get("calc") and hist["models"][mi].get("calc1")))
             stats["calculators_built"] += 1
         ks = calcs[ck]
         ni = ks._numint
@@ -550,7 +584,7 @@ def exec_ni_history(hist, rp):
             ref_exc = None
             try:
                 for j in op["dms"]:
-                    if reference(mi, k, gi, uks, j, scale) == "rejected":
+                    if reference(mi, k, gi, uks, j, scale, ci=op.get("calc", 0)) == "rejected":
                         ref_exc = "RuntimeError"
             except Exception as ex2:
                 ref_exc = type(ex2).__name__
@@ -605,7 +639,7 @@ def exec_ni_history(hist, rp):
         for idx, j in enumerate(op["dms"]):
             if op["alias"] == "sameab" or step < judge_from:
                 continue  # other input than the memoised reference; only the mutation check applies
-            rref = reference(mi, k, gi, uks, j, scale, rdm2d)
+            rref = reference(mi, k, gi, uks, j, scale, rdm2d, ci=op.get("calc", 0))
             if rref == "rejected":
                 V("history_vs_fresh:%s:accepts-what-fresh-objects-reject" % site, "step %d: fresh objects raise 'NLDF exponent is too large' for this request, the long-lived calculator returned numbers" % step)
                 continue
